@@ -111,8 +111,20 @@ def _worker(idx_case):
         vs, err = [], "HarnessError in case %r: %s\n%s" % (case, e, traceback.format_exc())
     except BaseException as e:  # noqa
         vs, err = [], "harness crash in case %r: %r\n%s" % (case, e, traceback.format_exc())
-    st.extra["_case_time_max"] = 0
-    return idx, st, [v.d for v in vs], err, time.time() - t0
+    # keep the results small: a few shortest violations per key, the rest only counted
+    by_key = {}
+    for v in vs:
+        by_key.setdefault(v.key, []).append(v.d)
+    out = []
+    for k, lst in by_key.items():
+        lst.sort(key=lambda d: len(d.get("choices") or []))
+        for d in lst[:3]:
+            d = dict(d)
+            d["observed"] = jsonable(d["observed"])
+            d["expected"] = jsonable(d["expected"])
+            d["same_key_in_case"] = len(lst)
+            out.append(d)
+    return idx, st, out, err, time.time() - t0
 
 
 def load_known():
